@@ -1152,6 +1152,15 @@ func EvalExpression(exprSrc string, rootValue interface{}, stdout io.Writer) (*C
 	if err != nil && err != errExit {
 		return nil, err
 	}
+	if cell != nil {
+		// the selected root is a value of its own, as if it had been assigned to
+		// $. in particular a missing member is a plain null, not a cell that
+		// still points into the document it was looked up in
+		cell, err = copyValue(cell, &Cell{})
+		if err != nil {
+			return nil, ev.error(expr.Token(), err.Error())
+		}
+	}
 	return cell, nil
 }
 
